@@ -972,6 +972,10 @@ func (data *Data) CreateMeasurement(database string, rpName string, mst string,
 
 	msti := rp.Measurement(mst)
 	if msti == nil || msti.MarkDeleted {
+		// the schema is applied after the measurement has been registered: refuse an inconsistent one beforehand
+		if err := checkSchemaInfoConsistent(schemaInfo); err != nil {
+			return err
+		}
 		var ver uint32
 		version, ok := rp.MstVersions[mst]
 		if ok {
@@ -988,6 +992,21 @@ func (data *Data) CreateMeasurement(database string, rpName string, mst string,
 		return nil
 	}
 	return ErrMeasurementExists
+}
+
+// checkSchemaInfoConsistent reports a field that is listed twice with different types.
+func checkSchemaInfoConsistent(schemaInfo []*proto2.FieldSchema) error {
+	if len(schemaInfo) < 2 {
+		return nil
+	}
+	types := make(map[string]int32, len(schemaInfo))
+	for _, f := range schemaInfo {
+		if typ, ok := types[f.GetFieldName()]; ok && typ != f.GetFieldType() {
+			return ErrFieldTypeConflict
+		}
+		types[f.GetFieldName()] = f.GetFieldType()
+	}
+	return nil
 }
 
 func (data *Data) AlterShardKey(database string, rpName string, mst string, shardKey *proto2.ShardKeyInfo) error {
